@@ -89,6 +89,7 @@ class DetLoop(asyncio.BaseEventLoop):
         self.final_cleanup = None  # optional hook: called after the drain, before close
         self.deadlocked = False
         self.livelocked = False
+        self.on_iteration = None  # optional hook: called at every iteration (watchdog re-arm)
 
     # -- clock -----------------------------------------------------------------
     def time(self):
@@ -134,6 +135,8 @@ class DetLoop(asyncio.BaseEventLoop):
 
     # -- the loop ----------------------------------------------------------------
     def _run_once(self):
+        if self.on_iteration is not None:
+            self.on_iteration()
         sched = self._scheduled
         while sched and sched[0]._cancelled:
             h = heapq.heappop(sched)
